@@ -116,6 +116,19 @@ CHECKS = {
         "capsule without symlinks; non-boundary string prefixes are grey; PyOpenSSL backend selected by the rules",
         "DESIGN.md §2 C05",
     ),
+    "C14": (
+        "fault_enumeration",
+        "Hypothesis-generated upload trees x configurations x Titan requests with injected storage faults; "
+        "enumeration of every EFBIG offset and every n-th failing filesystem call; whole-sandbox snapshot-diff oracle",
+        "Every generated or enumerated upload/delete (handler level and through the protocol) is judged by diffing a "
+        "snapshot of the whole sandbox: success changes exactly the one inside regular file with exactly the declared "
+        "bytes and only when token/size/type/delete preconditions hold; any failure status - including a disk-full at "
+        "every byte offset k and an I/O, space, permission or read-only error at every n-th filesystem call - leaves "
+        "every file unchanged and creates none.",
+        "faults injected with RLIMIT_FSIZE and by wrapping io.open/os.* in the check process (runs as root); a fault "
+        "hitting the clean-up unlink after a natural failure is a double fault and grey",
+        "DESIGN.md §2 C14",
+    ),
 }
 
 PENDING_REASON = "check not built yet in this round (work in progress; technique applies, see DESIGN.md)"
